@@ -3,8 +3,11 @@
 set -u
 patch=$1; shift
 cd /repo && git status --porcelain | grep -v '^??' | grep . && { echo "repo not clean"; exit 2; }
+rm -rf /verif/build/evidence.keep; cp -r /verif/evidence /verif/build/evidence.keep
 git -C /repo apply "$patch" || { echo "patch does not apply"; exit 2; }
 for id in "$@"; do
   ( cd /verif && timeout 1800 python3 tools/check.py "$id" 2>&1 | grep -E "VIOLATION|KNOWN-FINDING|^C[0-9]+ " | cut -c1-260 )
 done
 git -C /repo checkout -- .
+# evidence written while a seeded change was applied is not evidence about the tree: put the clean files back
+rm -rf /verif/evidence; mv /verif/build/evidence.keep /verif/evidence
